@@ -568,7 +568,9 @@ def run(chk, scratch):
             chk.violation("identical-records:bed:alignment-over-two-genes-seen-from-two-regions", "%s: the alignment spliced across two genes 49 kb apart is "
                           "printed twice: %s" % (desc, dup_known[0][:160]), wit)
         exp, cats = expected_reads(w)
-        if sum(1 for _ in bed_ids) != len(exp) and not any(v[0].startswith("reads-lost") for v in chk.violations):
+        # (reads lost by the mechanism of the recorded finding are reported under its key by judge(), not once more as a count)
+        lost_known_ = [r_.name for r_ in w.reads if r_.truth.get("class") == "gene-free-low-mapq-read-in-a-region-that-holds-a-gene" and r_.name in exp and r_.name not in bed_ids]
+        if sum(1 for _ in bed_ids) != len(exp) - len(lost_known_) and not any(v[0].startswith("reads-lost") for v in chk.violations):
             chk.violation("distinct-read-count:bed", "%s: %d distinct reads in BED, %d expected" % (desc, len(bed_ids), len(exp)), wit)
         if annotated:
             asg = o.assignments()
